@@ -46,17 +46,20 @@ func init() {
 
 // Call is one client call against operation Op with the given values.
 type Call struct {
-	Op        int                `json:"op"`
-	Path      map[string]mon.Q   `json:"path,omitempty"`
-	Query     map[string][]mon.Q `json:"query,omitempty"`
-	Header    map[string]mon.Q   `json:"header,omitempty"`
-	HeaderArr map[string][]mon.Q `json:"headerArrays,omitempty"` // name -> items (joined by the declared separator)
-	BodyType  string             `json:"bodyType,omitempty"`     // media type used for the JSON-like body ("" = first consumes)
-	Form      map[string][]mon.Q `json:"form,omitempty"`
-	FileLen   int                `json:"fileLen,omitempty"`
-	File      string             `json:"file,omitempty"` // file name ("" = no file)
-	Body      map[string]mon.Q   `json:"body,omitempty"`
-	Key       mon.Q              `json:"key,omitempty"`
+	Op           int                `json:"op"`
+	Path         map[string]mon.Q   `json:"path,omitempty"`
+	Query        map[string][]mon.Q `json:"query,omitempty"`
+	Header       map[string]mon.Q   `json:"header,omitempty"`
+	HeaderArr    map[string][]mon.Q `json:"headerArrays,omitempty"` // name -> items (joined by the declared separator)
+	BodyType     string             `json:"bodyType,omitempty"`     // media type used for the JSON-like body ("" = first consumes)
+	FileSkip     int                `json:"fileSkip,omitempty"`     // the upload is a seekable source handed over positioned at this offset
+	Signer       bool               `json:"signer,omitempty"`       // the auth writer reads the body (GetBody) like a request signer
+	BodyAsReader bool               `json:"bodyAsReader,omitempty"` // the JSON body is handed over as an io.Reader holding its text
+	Form         map[string][]mon.Q `json:"form,omitempty"`
+	FileLen      int                `json:"fileLen,omitempty"`
+	File         string             `json:"file,omitempty"` // file name ("" = no file)
+	Body         map[string]mon.Q   `json:"body,omitempty"`
+	Key          mon.Q              `json:"key,omitempty"`
 	// what the handler answers
 	RespHeader mon.Q `json:"respHeader,omitempty"`
 	RespText   mon.Q `json:"respText,omitempty"`
@@ -153,6 +156,11 @@ func (u *upFile) Name() string               { return u.name }
 func (u *upFile) Read(p []byte) (int, error) { return u.r.Read(p) }
 func (u *upFile) Close() error               { return nil }
 
+// seekFile is a seekable upload source (like *os.File): what is uploaded starts at its current position.
+type seekFile struct{ upFile }
+
+func (s *seekFile) Seek(off int64, whence int) (int64, error) { return s.r.Seek(off, whence) }
+
 type seen struct {
 	code    int
 	echo    string
@@ -200,20 +208,41 @@ func runCase(m *mon.M, c *Case) {
 				_ = req.SetFormParam(k, mon.SQ(v)...)
 			}
 			if call.File != "" {
-				_ = req.SetFileParam("upload", &upFile{name: call.File, r: bytes.NewReader(fileContent(call.FileLen))})
+				if call.FileSkip > 0 {
+					sf := &seekFile{upFile{name: call.File, r: bytes.NewReader(fileContent(call.FileLen))}}
+					_, _ = sf.Seek(int64(call.FileSkip), io.SeekStart) // the caller already consumed a local header
+					_ = req.SetFileParam("upload", sf)
+				} else {
+					_ = req.SetFileParam("upload", &upFile{name: call.File, r: bytes.NewReader(fileContent(call.FileLen))})
+				}
 			}
 			if call.Body != nil {
 				b := map[string]string{}
 				for k, v := range call.Body {
 					b[k] = string(v)
 				}
-				_ = req.SetBodyParam(b)
+				if call.BodyAsReader {
+					txt, _ := json.Marshal(b)
+					_ = req.SetBodyParam(strings.NewReader(string(txt)))
+				} else {
+					_ = req.SetBodyParam(b)
+				}
 			}
 			return nil
 		})
 		var auth rt.ClientAuthInfoWriter
 		if c.Auth {
 			auth = client.APIKeyAuth("X-Api-Key", "header", string(call.Key))
+		}
+		if call.Signer {
+			inner := auth
+			auth = rt.ClientAuthInfoWriterFunc(func(req rt.ClientRequest, reg strfmt.Registry) error {
+				_ = req.GetBody() // a signer looks at what will be sent
+				if inner != nil {
+					return inner.AuthenticateRequest(req, reg)
+				}
+				return nil
+			})
 		}
 		reader := rt.ClientResponseReaderFunc(func(resp rt.ClientResponse, cons rt.Consumer) (interface{}, error) {
 			sn.code = resp.Code()
@@ -349,7 +378,11 @@ func compareValues(call *Call, got *received) string {
 		}
 	}
 	if call.File != "" {
-		want := fmt.Sprintf("%s:%x", baseName(call.File), mon.Hash64(string(fileContent(call.FileLen))))
+		content := fileContent(call.FileLen)
+		if call.FileSkip > 0 && call.FileSkip <= len(content) {
+			content = content[call.FileSkip:]
+		}
+		want := fmt.Sprintf("%s:%x", baseName(call.File), mon.Hash64(string(content)))
 		if got.files["upload"] != want {
 			return "file"
 		}
@@ -573,7 +606,7 @@ func genDesc(r *rand.Rand) (gen.Desc, bool) {
 
 func genCall(r *rand.Rand, d *gen.Desc, oi int) Call {
 	op := &d.Ops[oi]
-	c := Call{Op: oi, RespHeader: mon.Q(headerValue(r)), RespText: mon.Q(utf8Value(r)), Key: mon.Q(headerValue(r))}
+	c := Call{Op: oi, RespHeader: mon.Q(headerValue(r)), RespText: mon.Q(utf8Value(r)), Key: mon.Q(headerValue(r)), Signer: r.Intn(3) == 0}
 	for _, p := range op.Params {
 		switch p.In {
 		case "path":
@@ -622,6 +655,9 @@ func genCall(r *rand.Rand, d *gen.Desc, oi int) Call {
 			if p.Type == "file" {
 				c.File = []string{"a.txt", "dir/b.bin", "sp ace.dat", "é.bin"}[r.Intn(4)]
 				c.FileLen = []int{0, 1, 511, 512, 513, 4096, 70000}[r.Intn(7)]
+				if c.FileLen > 1 && r.Intn(3) == 0 {
+					c.FileSkip = 1 + r.Intn(c.FileLen-1)
+				}
 				continue
 			}
 			if c.Form == nil {
@@ -638,10 +674,12 @@ func genCall(r *rand.Rand, d *gen.Desc, oi int) Call {
 				c.Form[p.Name] = []mon.Q{mon.Q(hostile(r) + "f")}
 			}
 		case "body":
+			c.BodyAsReader = r.Intn(3) == 0
 			c.Body = map[string]mon.Q{"s": mon.Q(utf8Value(r)), "t": mon.Q(utf8Value(r))}
 			if len(op.Consumes) > 1 {
 				c.BodyType = op.Consumes[r.Intn(len(op.Consumes))]
 				if c.BodyType == "application/x-yaml" {
+					c.BodyAsReader = false
 					// YAML 1.2 scalars: keep to printable text so that the value is what was sent
 					c.Body = map[string]mon.Q{"s": mon.Q("y" + strings.Map(func(r rune) rune {
 						if r < 0x20 || r == 0x7f || r == 0x85 || r == 0xfeff {
